@@ -105,7 +105,7 @@ def floors(tier: str):
     return {"crc:len1-2": 65792, "pattern:single": 1000, "pattern:double": 1000, "pattern:burst": 1000,
             "e2e:model-error": 100, "e2e:probe-delivered": 100, "e2e:special-check-value:0": 20, "e2e:special-check-value:3": 20,
             "crc:check-value-0000": 100, "e2e:special-header:b0": 8, "e2e:special-header:bf": 8,
-            "e2e:send-between-segments": 200}
+            "e2e:send-between-segments": 200, "e2e:damaged-repeat-of-intact-frame": 100}
 
 
 def gens_first_message(gen: int):
@@ -355,7 +355,8 @@ def _bits_of(pattern, nbits: int) -> list[int]:
 def _e2e_strategy(gen: int):
     msgs = st.lists(gens.message(gen, direction="s2c"), min_size=2, max_size=5)
     probes = st.lists(gens.message(gen, direction="s2c"), min_size=1, max_size=2)
-    return st.tuples(msgs, st.integers(0, 4), _pattern, probes, st.one_of(st.none(), st.none(), st.integers(0, 4000)))
+    return st.tuples(msgs, st.integers(0, 4), _pattern, probes, st.one_of(st.none(), st.none(), st.integers(0, 4000)),
+                     st.sampled_from([False, False, False, True]))
 
 
 def run_shard(spec, seed: int, tier: str):
@@ -445,11 +446,20 @@ def run_shard(spec, seed: int, tier: str):
         gen = spec["gen"]
 
         def body(case):
-            msgs, vi, pattern, probes, split = case
+            msgs, vi, pattern, probes, split, dup = case
             frames = console_frames(gen, [m for _, m in msgs])
             pf = console_frames(gen, [m for _, m in probes], pid0=200)
             victim = vi % len(frames)
             s, _ = covered_span(gen, frames[victim])
+            if dup and victim >= 1:
+                # the damaged frame is a repeat of the intact frame in front of it (consoles re-broadcast identical status
+                # frames); the damage then lies in the address / packet-id bytes or anywhere else
+                frames[victim] = frames[victim - 1]
+                s, _ = covered_span(gen, frames[victim])
+                if pattern[0] in ("single", "double"):
+                    pattern = (pattern[0],) + tuple(p % 24 for p in pattern[1:])
+                if stats is not None:
+                    stats.classes["e2e:damaged-repeat-of-intact-frame"] += 1
             if pattern[0] == "special":
                 bits = _special_bits(gen, frames[victim], pattern[1])
                 if bits and stats is not None:
